@@ -315,6 +315,13 @@ def arms(tier):
 
 def known_class(arm, case, key):
     if arm == "temporaries":
+        bps, opts = case
+        objs = [gv.build(bp)[0] for bp in bps]
+        if key.startswith("load-rejects-dump_all-output") and any(has_subminute_tz(o) for o in objs):
+            return "datetime-subminute-utcoffset"
+        if key.startswith(("temporaries:document-differs:c>", "temporaries:document-count:c>", "load-rejects-dump_all-output:c>")) and any(
+                c_folded_more_indented(o, opts) for o in objs):
+            return "libyaml-folds-inside-more-indented-line"
         return None
     if arm in ("value", "tz", "shared-scalar-key"):
         bp, opts, _ = case
